@@ -111,6 +111,17 @@ class _Canon(ast.NodeTransformer):
                     fs.append(e.args[0])
                     e = e.args[1]
                     continue
+            # (f(x) for x in X) / [f(x) for x in X] / (x for x in X): what map(f, X) has been rewritten to by visit_Call below
+            if isinstance(e, (ast.GeneratorExp, ast.ListComp)) and len(e.generators) == 1 and not e.generators[0].ifs and isinstance(e.generators[0].target, ast.Name):
+                t = e.generators[0].target.id
+                if isinstance(e.elt, ast.Name) and e.elt.id == t:
+                    e = e.generators[0].iter
+                    continue
+                if isinstance(e.elt, ast.Call) and not e.elt.keywords and len(e.elt.args) == 1 and isinstance(e.elt.args[0], ast.Name) and e.elt.args[0].id == t \
+                        and isinstance(e.elt.func, (ast.Name, ast.Attribute)) and t not in {x.id for x in ast.walk(e.elt.func) if isinstance(x, ast.Name)}:
+                    fs.append(e.elt.func)
+                    e = e.generators[0].iter
+                    continue
             break
         if isinstance(e, ast.Call) and isinstance(e.func, ast.Attribute) and e.func.attr in ("keys", "values") and not e.args and not e.keywords:
             return e.func.value, e.func.attr, fs
@@ -209,9 +220,33 @@ class _Canon(ast.NodeTransformer):
             return False
         return any(isinstance(s_, ast.Break) or rec(s_) for s_ in stmts)
 
+    # ---- the counter on the right: `for x, i in zip(X, itertools.count([k]))` is `for i, x in enumerate(X[, k])` (same pairs, the two
+    # targets swapped); in `for` statements and comprehension clauses with a two-element target
+    def _counter_second(self, target, it):
+        if isinstance(it, ast.Call) and isinstance(it.func, ast.Name) and it.func.id == "zip" and len(it.args) == 2 and not it.keywords \
+                and not any(isinstance(a, ast.Starred) for a in it.args) and isinstance(target, (ast.Tuple, ast.List)) and len(target.elts) == 2 \
+                and not any(isinstance(e, ast.Starred) for e in target.elts):
+            x, c = it.args
+            if isinstance(c, ast.Call) and not c.keywords and self._itertools(c.func) == "count" and len(c.args) <= 1 \
+                    and not (isinstance(x, ast.Call) and self._itertools(x.func) == "count"):
+                new_it = ast.copy_location(ast.Call(func=ast.copy_location(ast.Name(id="enumerate", ctx=ast.Load()), it.func), args=[x] + list(c.args), keywords=[]), it)
+                new_tg = ast.copy_location(type(target)(elts=[target.elts[1], target.elts[0]], ctx=target.ctx), target)
+                return new_tg, new_it
+        return None
+
     def visit_For(self, n):
         n = self.generic_visit(n)
+        sw = self._counter_second(n.target, n.iter)
+        if sw is not None:
+            n.target, n.iter = sw
+            ast.fix_missing_locations(n)
         it = n.iter
+        # product(A, repeat=k) with a literal k is product(A, A, .. k times)
+        if isinstance(it, ast.Call) and self._itertools(it.func) == "product" and len(it.args) == 1 and len(it.keywords) == 1 and it.keywords[0].arg == "repeat" \
+                and isinstance(it.keywords[0].value, ast.Constant) and type(it.keywords[0].value.value) is int and 2 <= it.keywords[0].value.value <= 4 \
+                and not isinstance(it.args[0], ast.Starred):
+            import copy as _c
+            it = ast.copy_location(ast.Call(func=it.func, args=[_c.deepcopy(it.args[0]) for _ in range(it.keywords[0].value.value)], keywords=[]), it)
         if isinstance(it, ast.Call) and self._itertools(it.func) == "product" and len(it.args) >= 2 and not it.keywords and not n.orelse \
                 and isinstance(n.target, (ast.Tuple, ast.List)) and len(n.target.elts) == len(it.args) \
                 and not any(isinstance(a, ast.Starred) for a in it.args) and not any(isinstance(e, ast.Starred) for e in n.target.elts):
@@ -267,6 +302,10 @@ class _Canon(ast.NodeTransformer):
     def visit_comprehension(self, n):
         self.generic_visit(n)
         n.ifs = [self._truth(c) for c in n.ifs]
+        sw = self._counter_second(n.target, n.iter)
+        if sw is not None:
+            n.target, n.iter = sw
+            ast.fix_missing_locations(n)
         return n
 
     def visit_UnaryOp(self, n):
